@@ -4,7 +4,7 @@
 From Coq Require Extraction ExtrOcamlBasic.
 From Schwifty Require Import Lib.Base Lib.Regex Model.Clean Model.Data Model.Iban Model.Bic Model.Bban Model.Generate Model.Registry Model.Lookup Model.National Model.Algorithms Model.Germany Model.Random Lib.Json.
 From Schwifty Require Import Gen.Env Gen.IbanData Gen.IbanCfg Gen.BicCfg Gen.ChecksumCfg Gen.GermanyTbl.
-From Schwifty Require Import Spec.Iso13616 Spec.Iso9362 Spec.Defects Spec.RegistrySpec Spec.NationalPublished Spec.Bundesbank.
+From Schwifty Require Import Spec.Iso13616 Spec.Iso9362 Spec.Defects Spec.RegistrySpec Spec.NationalPublished Spec.Bundesbank Spec.Whitespace.
 From Coq Require Import String Ascii.
 
 Definition x_german := german_class nd_runs german_table account_code_length.
@@ -64,11 +64,13 @@ Definition all_exn : list exn :=
   [ESchwifty; EInvalidLength; EInvalidStructure; EInvalidCountryCode; EInvalidBankCode; EInvalidBranchCode;
    EInvalidAccountCode; EInvalidChecksumDigits; EInvalidBBANChecksum; EGenerateRandomOverflow].
 (* None: the spec accepts; Some l: the defects present *)
+(* the specification's own cleaning: white space as written down in Spec/Whitespace.v, not what _clean_regex removes *)
+Definition s_clean (t : text) : text := upper the_env (strip_whitespace t).
 Definition s_iban_verdict (t : text) : option (list exn) :=
-  let s := clean the_env t in
+  let s := s_clean t in
   if iso_ok the_table s then None else Some (filter (fun ex => iban_defect the_table ex s) all_exn).
 Definition s_bic_verdict (strict : bool) (t : text) : option (list exn) :=
-  let s := clean the_env t in
+  let s := s_clean t in
   if iso9362_ok iso3166 strict s then None else Some (filter (fun ex => bic_defect iso3166 strict ex s) all_exn).
 
 Definition x_bban_component := bban_component the_table.
@@ -113,7 +115,7 @@ Set Extraction KeepSingleton.
 Extraction "extract/model.ml"
   x_clean x_iban_new x_iban_validate x_iban_is_valid x_iban_from_bban x_iban_formatted x_national x_from_components x_generate s_published_ok s_has_published x_algo_validate x_algo_compute s_bb x_random_bban x_random_iban
   x_pat_apply x_chars_pat x_chars_method x_format_method x_row_regex
-  s_iso_ok s_check_digits s_conforms
+  s_iso_ok s_check_digits s_conforms s_clean
   x_bic_new x_bic_validate x_bic_is_valid x_bic_formatted x_bic_parts x_bic_pat s_iso9362_ok s_iban_verdict s_bic_verdict
   x_bban_component x_iban_cc x_iban_dd x_iban_bban x_text_eqb
   x_merge_dicts x_parse_v2 x_registry_get
